@@ -964,6 +964,9 @@ func c11FindCases(out *vfOut, wd *c11World, rnd *vfRand) {
 		}
 	}
 	one(std, "nobody", c12Pass, "std")
+	one(std, strings.ToUpper(c12User), c12Pass, "std") // names are compared exactly
+	one(std, c12User+" ", c12Pass, "std")
+	one(std, "Dup", c12Pass, "std")
 	one(std, "", "", "std")
 	one(nil, c12User, c12Pass, "no-users")
 	// the shadowing pair in both orders
